@@ -106,6 +106,13 @@ def mutate_lines(s, lines, other_lines):
 
 def g_noisy(s):
     """-> (text, default dialect, label)"""
+    text, d, label = _g_noisy(s)
+    if s.int(6) == 0:
+        text += s.choice(["\n", "\n\n", "\n\n\n", "\n \n", "\r\n\r\n"])  # documents ending in blank lines
+    return (text, d, label)
+
+
+def _g_noisy(s):
     k = s.int(8)
     if k < 4:
         doc = model.g_doc(s)
